@@ -288,6 +288,11 @@ fn exec_inner(toks: &[&str]) -> String {
 
 //------------ generation ----------------------------------------------------
 
+/// one mutation of either kind (tree-aware or on the raw octets)
+pub fn mutate_any(rng: &mut Rng, orig: &[u8], others: &[Vec<u8>]) -> Vec<u8> {
+    if rng.bool() { mutate_tree(rng, orig).unwrap_or_else(|| mutate(rng, orig, others)) } else { mutate(rng, orig, others) }
+}
+
 fn mutate(rng: &mut Rng, orig: &[u8], others: &[Vec<u8>]) -> Vec<u8> {
     let mut d = orig.to_vec();
     let w = der::walk(&d);
@@ -379,7 +384,7 @@ fn mutate_tree(rng: &mut Rng, orig: &[u8]) -> Option<Vec<u8>> {
 
 /// Every boundary content for every small primitive (BIT STRING, INTEGER, BOOLEAN, times) of the object,
 /// one at a time, with all enclosing lengths re-encoded.
-fn systematic(orig: &[u8]) -> Vec<Vec<u8>> {
+pub fn systematic(orig: &[u8]) -> Vec<Vec<u8>> {
     let mut out = Vec::new();
     let Some(nodes) = der::parse_nodes(orig) else { return out };
     let total = der::count_nodes(&nodes);
